@@ -207,6 +207,14 @@ func init() {
 		}},
 		opGen{"branch-hostile", hasCommit, func(g *G) Step {
 			n := g.Pick(hostileBranchNames, "hostileName")
+			if g.Chance(50, "traversal") {
+				// a relative path that, counted from refs/heads (2 levels) or logs/refs/heads (3 levels), names an
+				// existing file of the repository: HEAD, the index, a stored object, another branch, a log
+				k := g.Int(0, 4, "k")
+				tgt := g.Pick([]string{"HEAD", "index", "config", fmt.Sprintf("objects/{{commitpath#%d}}", k), fmt.Sprintf("objects/{{treepath#%d}}", k),
+					"refs/heads/" + g.Pick(g.E.Cur.BranchNames(), "b"), "logs/HEAD", "logs/refs/heads/" + g.Pick(g.E.Cur.BranchNames(), "b2"), "objects", "refs"}, "target")
+				n = strings.Repeat("../", g.Int(1, 4, "ups")) + tgt
+			}
 			switch g.Int(0, 3, "form") {
 			case 0:
 				return Step{Op: "goit", Args: []string{"branch", n}, Note: "hostile"}
